@@ -1613,7 +1613,11 @@ class SingleItemDecoder(object):
 
         value = noValue
 
-        substrate.markedPosition = substrate.tell()
+        if state is stDecodeTag:
+            # a re-entrant call that carries on with a header already
+            # read (e.g. the alternative of an untagged CHOICE) keeps
+            # the mark at the beginning of that header
+            substrate.markedPosition = substrate.tell()
 
         while state is not stStop:
 
